@@ -191,6 +191,13 @@ BAD = {
     "cxx-comment": cat(lit("//"), ANYSTAR),
 }
 
+# Malformed literals that must be reported AS A WHOLE (one error for the entire literal, up to its real closing quote,
+# not an error for a prefix and ordinary tokens / further errors for the rest): a one-line string literal with at
+# least one invalid escape; an escaped quote (backslash-quote) does not close it.
+BAD_WHOLE = {
+    "invalid-escape-in-string": cat(dq, star(_line_body(DQUOTE)), _bad_esc, star(_line_body(DQUOTE)), dq),
+}
+
 # ---- 6.4.6 punctuators, 6.4.1 keywords -------------------------------------------------------
 PUNCTUATORS_C99 = (
     "[ ] ( ) { } . -> ++ -- & * + - ~ ! / % << >> < > <= >= == != ^ | && || ? : ; ... "
